@@ -10,7 +10,9 @@ def run(tier):
         "sum of the pieces copied, piece for piece and loop for loop, the allocation is that plus one, the pieces follow the wire "
         "grammar, head then body are queued with their own lengths; (W3) HEAD/204/304 complete before any framing header is read, "
         "chunked has precedence over Content-Length, read-to-EOF is the fall-through; (B1) the body budget, shared with C08: a "
-        "well-formed body within the limit must not trip it. Not decided: header name/value extraction, OWS trimming, chunk "
+        "well-formed body within the limit must not trip it; (W4) digit classes agree with the radix converted with; (W5) no field of the "
+        "malloc'ed request is read, along any continuation path, before it is stored; (W6) the header-terminator scan advances only past "
+        "compared positions and records only examined offsets, so a terminator cut by a read boundary is still found. Not decided: header name/value extraction, OWS trimming, chunk "
         "reassembly as string semantics over all inputs.",
         trusted=["netbuf_read semantics (consume shifts the window)"])
     configs = [cdb.HOST]
@@ -27,8 +29,15 @@ def run(tier):
         H.framing_order(prog, rep)
         H.number_bases(prog, rep)
         H.budget(prog, rep, L)
+        H.cookie_init(prog, rep, L)
+        H.header_scan(prog, rep)
+        # the buffered reader under the decoder: header blocks and chunks larger than its initial buffer must still fit
+        # (window invariant, growth and compaction tests; relational rules shared with C07)
+        from . import c07
+        c07.reader_window(ir.Program([c07.RU], cfg), rep)
     n = len(configs)
     rep.require_min("W1-cursor", 4 * n)
     rep.require_min("W2-length", 3 * n)
     rep.require_min("W3-framing", 4 * n)
+    rep.require_min("F4-fits", 2 * n)
     return rep
